@@ -187,6 +187,9 @@ fn c5_accept_only() {
 fn c5_rr_single_higher() {
     // reduce/reduce: strictly higher than the earlier reduction replaces it
     conflict_case(false, false, 1, 11, 10, [10, 10], 0, 0, 1, 0, M0);
+    // the same under GLR, where the new (right-nulled) reduction has length 0 and the one it replaces length 1: the
+    // surviving entry must be the NEW reduction, length included (seed C02d)
+    conflict_case(false, false, 1, 11, 10, [10, 10], 0, 0, 1, 0, MG);
     kani::cover!(true, "all cases executed");
 }
 #[kani::proof]
@@ -231,7 +234,7 @@ fn conflict_case(has_shift: bool, accept: bool, nred: usize, prio: u32, shift_pr
     let prod_len = if empty { 0 } else { 1 };
     // LR: the item reduces at its end; GLR (right-nulled): it may also reduce at position 0 of a one-symbol production
     let position: usize = if lr { prod_len } else { 0 };
-    let item = RecItem { prod_len };
+    let item = RecItem { prod: ProdIndex(NEW), prod_len, position };
     let new_reduce = Action::Reduce(ProdIndex(NEW), position);
 
     // ---- the cell before: [Shift|Accept]? then 0..2 reductions (by production 1 / 2, length 0 or 1), not empty ----
@@ -343,7 +346,8 @@ fn c5_real_types_shift() {
 /// C05 "shift priority = max priority of productions shifting the terminal in this state": the real
 /// LRState::group_per_next_symbol on a state with two items that both have terminal 1 right of the dot, from productions
 /// of priorities (p1, p2).  bounded: two items, one terminal, a decision table of the three orderings of the two
-/// priorities with concrete values (with symbolic priorities the BTreeMap entry API exceeded the 20 GB cap -- measured).
+/// priorities with concrete values.  NOT REGISTERED: measured -- with symbolic priorities the BTreeMap entry API exceeded the
+/// 20 GB cap; with the concrete table below it timed out at 1500 s.  Seed C05c stays missed.  Kept for the record.
 fn max_prior_case(p1: u32, p2: u32) {
     let mk = |prio: u32, idx: usize| Production {
         idx: ProdIndex(idx),
